@@ -219,3 +219,42 @@ Theorem C12_handover_outside_region_refuted :
     CallModel.succ (CallModel.mkCfg false false) s = [].
 Proof. exact handover_outside_region_refuted. Qed.
 Print Assumptions C12_handover_outside_region_refuted.
+
+(* ================= the task population at remove_rpc_object / stop ============================================== *)
+(* TaskPop.v: tasks abstracted to (condition variable they block on, stop flag, ended); tasks consuming from one shared
+   receiver share the condition variable.  The release step of a task runner = stop_task + join.
+   [honours] is the explicit assumption "a task woken with its stop flag set ends": property C11 (C11_released,
+   C11_wait_after_stop, C11_no_deadlock) + the task's code blocks only in QMI's own stoppable waits. *)
+Require QV.C12.TaskPop.
+
+(* for EVERY population of tasks (any number, any sharing of condition variables, any other waiters) and EVERY order of
+   removing / stopping them: every release step returns (stop_seq = Some ...) and every task stopped has ended *)
+Theorem C12_task_population_stops : forall (honours : nat -> bool), (forall i, honours i = true) ->
+  forall order s, (forall i, In i order -> i < length (TaskPop.tasks s)) ->
+  exists s', TaskPop.stop_seq honours TaskPop.NotifyAll order s = Some s' /\
+    length (TaskPop.tasks s') = length (TaskPop.tasks s) /\
+    (forall i, In i order -> TaskPop.ended (TaskPop.getT s' i) = true) /\
+    (forall j, j < length (TaskPop.tasks s) -> TaskPop.ended (TaskPop.getT s j) = true -> TaskPop.ended (TaskPop.getT s' j) = true).
+Proof. exact TaskPop.stop_seq_all_terminates. Qed.
+Print Assumptions C12_task_population_stops.
+
+(* stop of a context with objects AND running tasks: the context-level tables are reclaimed (C12_stop_reclaims) and the
+   release steps of its task runners all return, under the stated assumption on the tasks *)
+Theorem C12_stop_reclaims_objects_and_tasks : forall w c (honours : nat -> bool) order p,
+  Inv w -> cur w = Some c -> active c = true -> all_caught w c = true ->
+  (forall i, honours i = true) -> (forall i, In i order -> i < length (TaskPop.tasks p)) ->
+  (exists w' c', ctx_stop c w = Ret w' /\ cur w' = Some c' /\
+     (forall o, In o (live_oids (objmap c)) -> count_occ Nat.eq_dec (rel w') o = 1) /\
+     objmap c' = [] /\ handlers c' = [] /\ cthreads c' = [] /\ router c' = false /\ active c' = false) /\
+  (exists p', TaskPop.stop_seq honours TaskPop.NotifyAll order p = Some p' /\
+     forall i, In i order -> TaskPop.ended (TaskPop.getT p' i) = true).
+Proof. exact stop_reclaims_objects_and_tasks. Qed.
+Print Assumptions C12_stop_reclaims_objects_and_tasks.
+
+(* waking only one waiter (notify instead of notify_all): two tasks on one receiver, the younger waiter is stopped first:
+   its release step never returns *)
+Theorem C12_task_population_notify_one_refuted :
+  TaskPop.stop_seq (fun _ => true) TaskPop.NotifyOne [0; 1]
+    (TaskPop.mkP [TaskPop.mkT 7 false false; TaskPop.mkT 7 false false] [(7, Some 1); (7, Some 0)]) = None.
+Proof. exact TaskPop.notify_one_refuted. Qed.
+Print Assumptions C12_task_population_notify_one_refuted.
